@@ -498,7 +498,7 @@ def run_direct_matching(ctx: Ctx, workload: str, n_cases: int, max_n: int = 24) 
 
     for idx in ctx.indices(workload, n_cases):
         r = ctx.rng(workload, idx)
-        c = gen_matching_case(r, max_n=max_n)
+        c = gen_matching_case(r, max_n=(60 if idx % 40 == 7 else max_n))  # a few large sets ("dozens")
         ctx.begin_case(workload, idx, **c["case"])
         kw = c["kwargs"]
         try:
